@@ -1163,11 +1163,14 @@ func (m *model) newStruct(vals map[int]lval, dvals map[int]lval) reflect.Value {
 	return p
 }
 
-func (m *model) litItems(items []*item, vals map[int]lval, dvals map[int]lval) string {
+func (m *model) litItems(items []*item, vals map[int]lval, dvals map[int]lval, kids map[string][]kid) string {
 	var parts []string
 	for _, it := range items {
 		switch {
 		case it.r != nil:
+			if ks := kids[it.r.name]; len(ks) > 0 {
+				parts = append(parts, it.r.name+": "+relationLit(it.r, ks))
+			}
 		case it.f != nil:
 			if l, ok := vals[it.f.idx]; ok && !isGoZero(it.f.k, l) {
 				parts = append(parts, it.f.name+": "+goLit(it.f.k, l))
@@ -1177,7 +1180,7 @@ func (m *model) litItems(items []*item, vals map[int]lval, dvals map[int]lval) s
 				parts = append(parts, it.d.name+": "+goLit(it.d.k, l))
 			}
 		default:
-			if in := m.litItems(it.g.items, vals, dvals); in != "" {
+			if in := m.litItems(it.g.items, vals, dvals, nil); in != "" {
 				amp := ""
 				if it.g.ptr {
 					amp = "&"
@@ -1190,5 +1193,22 @@ func (m *model) litItems(items []*item, vals map[int]lval, dvals map[int]lval) s
 }
 
 func (m *model) structLit(vals map[int]lval, dvals map[int]lval) string {
-	return "T{" + m.litItems(m.top, vals, dvals) + "}"
+	return "T{" + m.litItems(m.top, vals, dvals, nil) + "}"
+}
+
+// setKids puts associated records into the relation fields (top level) of the *T p.
+func (m *model) setKids(p reflect.Value, kids map[string][]kid) {
+	for _, rl := range m.rels {
+		if ks := kids[rl.name]; len(ks) > 0 {
+			setRelation(p, rl, ks)
+		}
+	}
+}
+
+// recStruct: the *T of a struct record - its fields, duplicate fields and the associated records its
+// relation fields carry - and its literal "T{...}".
+func (m *model) recStruct(rc *rec) (reflect.Value, string) {
+	p := m.newStruct(rc.lvals(), rc.dvals)
+	m.setKids(p, rc.kids)
+	return p, "T{" + m.litItems(m.top, rc.lvals(), rc.dvals, rc.kids) + "}"
 }
